@@ -75,6 +75,8 @@ def file_slots(path):
 
 
 class Driver:
+    _nsaves = 0
+
     def __init__(self, h, rng, wd, recs):
         self.h, self.rng, self.wd, self.recs = h, rng, wd, recs
         self.w = World()
@@ -87,6 +89,21 @@ class Driver:
     def nid(self, p):
         self.n += 1
         return f"{p}{self.n}"
+
+    def file_name(self, fid):
+        """where the next save goes: three physical paths are used over and over (a settings file is edited and saved again
+        under its name), handed to the library as an absolute str, a str relative to the working directory, or a pathlib.Path;
+        the file object of the model that lived at that path before is gone (it can no longer be loaded)"""
+        import pathlib
+        k = Driver._nsaves                      # counted over all histories of the run: the paths outlive a history
+        Driver._nsaves = k + 1
+        phys = os.path.join(self.wd, f"slot{k % 3}.json")
+        for old, path in list(getattr(self, "_at", {}).items()):
+            if path == phys and self.kind.get(old) == "file":
+                self.kind[old] = "file-overwritten"
+        self.__dict__.setdefault("_at", {})[fid] = phys
+        form = (k // 3) % 3
+        return phys if form == 0 else os.path.relpath(phys) if form == 1 else pathlib.Path(phys)
 
     def log(self, op, roles, new, fn, **args):
         pre = self.w.snapshot()
@@ -152,7 +169,7 @@ class Driver:
     def save(self, o):
         obj = self.live[o]
         fid = self.nid("f")
-        fn = os.path.join(self.wd, f"{fid}.json")
+        fn = self.file_name(fid)
 
         def f():
             obj.save(fn)
@@ -312,7 +329,7 @@ class Driver:
             return self.log("Assign", dict(o=o, u=u), [], lambda: setattr(obj, name, val), slots=[2 * k + 1, 2 * k + 2])
         if op == "Save":
             fid = self.nid("f")
-            fn = os.path.join(self.wd, f"{fid}.json")
+            fn = self.file_name(fid)
 
             def f():
                 obj.save(fn) if rng.rand() < 0.5 else h.write_settings_object_to_file(obj, fn)
